@@ -26,4 +26,89 @@ mod verif_replay_expr_dm {
             }
         }
     }
+
+    fn eval(src: &str) -> Result<String, String> {
+        use crate::expression_engine::parser::ExpressionParser;
+        let gd = create_global_data_arc();
+        RFsmExpressionDatamodel::add_internal_functions_to_wrapper(&mut gd.lock().unwrap().actions);
+        let mut g = gd.lock().unwrap();
+        g.data.map.insert("a".to_string(), create_data_arc(Data::Integer(0)));
+        g.data.map.insert("b".to_string(), create_data_arc(Data::Integer(0)));
+        match ExpressionParser::execute(src.to_string(), &mut g) {
+            Ok(v) => Ok(v.lock().unwrap().to_string()),
+            Err(e) => Err(e),
+        }
+    }
+
+    /// C10: equal-precedence binary operators group left to right
+    #[test]
+    fn verif_replay_left_to_right_grouping() {
+        for (src, want) in [
+            ("10 - 3 - 2", "5"),
+            ("2 - 1 + 1", "2"),
+            ("100 / 10 / 5", "2"),
+            ("8 / 4 * 2", "4"),
+            ("7 % 4 % 2", "1"),
+            ("10 - 3 - 2 - 1", "4"),
+            ("1 + 2 * 3 - 4", "3"),
+            ("(10 - 3) - 2", "5"),
+            ("10 - (3 - 2)", "9"),
+        ] {
+            assert_eq!(eval(src), Ok(want.to_string()), "value of `{}`", src);
+        }
+    }
+
+    /// C10: prefix '!' and the assignment operators still nest to the right
+    #[test]
+    fn verif_replay_right_nesting_operators() {
+        assert_eq!(eval("!!true"), Ok("true".to_string()));
+        assert_eq!(eval("!!!true"), Ok("false".to_string()));
+        assert_eq!(eval("a = b = 3"), Ok("3".to_string()));
+    }
+
+    /// evaluates `src` on its own thread; Err("timeout") if it does not come back within 5 s (self-deadlock)
+    fn eval_with_timeout(src: &'static str) -> Result<Result<String, String>, String> {
+        let (tx, rx) = std::sync::mpsc::channel();
+        std::thread::spawn(move || {
+            use crate::expression_engine::parser::ExpressionParser;
+            let gd = create_global_data_arc();
+            RFsmExpressionDatamodel::add_internal_functions_to_wrapper(&mut gd.lock().unwrap().actions);
+            let mut g = gd.lock().unwrap();
+            g.data.map.insert("a".to_string(), create_data_arc(Data::Integer(7)));
+            g.data.map.insert("v".to_string(), create_data_arc(Data::Array(vec![create_data_arc(Data::Integer(1))])));
+            g.data.map.insert("m".to_string(), create_data_arc(Data::Map(std::collections::HashMap::new())));
+            let r = match ExpressionParser::execute(src.to_string(), &mut g) {
+                Ok(v) => Ok(v.lock().unwrap().to_string()),
+                Err(e) => Err(e),
+            };
+            let _ = tx.send(r);
+        });
+        rx.recv_timeout(std::time::Duration::from_secs(5)).map_err(|_| "timeout".to_string())
+    }
+
+    /// C11: expressions whose operands alias the same stored value terminate (no self-deadlock on the value's lock)
+    #[test]
+    fn verif_replay_aliased_operands_terminate() {
+        for src in ["a = a", "a ?= a", "v[v]", "m[m]", "a + a", "a == a", "v + v", "v == v"] {
+            let r = eval_with_timeout(src);
+            assert!(r.is_ok(), "evaluation of `{}` did not terminate (blocked on its own data lock)", src);
+        }
+        assert_eq!(eval_with_timeout("a = a"), Ok(Ok("7".to_string())));
+    }
+
+    /// C11: indexing at, beyond and below the bounds of an array (and with odd index types) returns an error, never a panic,
+    /// and leaves the array usable afterwards
+    #[test]
+    fn verif_replay_index_bounds() {
+        for src in ["[][0]", "[1,2,4][3]", "[1,2,4][4]", "[1,2,4][0-1]", "[1,2,4][3.0]", "[1,2,4]['x']", "[1,2,4][[1]]", "v[1]", "v[9223372036854775807]"] {
+            let r = std::panic::catch_unwind(|| eval_with_timeout(src));
+            match r {
+                Ok(Ok(v)) => assert!(v.is_err(), "`{}` evaluated to {:?} instead of an error", src, v),
+                Ok(Err(e)) => panic!("`{}`: {}", src, e),
+                Err(_) => panic!("`{}` panicked", src),
+            }
+        }
+        assert_eq!(eval_with_timeout("[1,2,4][2]"), Ok(Ok("4".to_string())));
+        assert_eq!(eval_with_timeout("v[0]"), Ok(Ok("1".to_string())));
+    }
 }
